@@ -36,3 +36,29 @@ PLANS = {
 WORLD_BIN = {"queue": "world"}
 SELFTEST_WORLDS = [("queue", "ALL"), ("queue", "C08"), ("queue", "C05")]
 ALL_TARGETS = ["world"]
+
+SIMNOTE = ("assumes the trusted base of DESIGN.md 6: Go 1.26.8 synctest + five runtime patches, the two-rule AST rewriter, simnet/simos fidelity, "
+           "one-P atomicity between synchronisation operations; oracles see the wire only (frames, HTTP, /stats, data directory)")
+
+def mt(text, ref, technique, note=SIMNOTE):
+    return dict(text=text, ref=ref, technique=technique, note=note)
+
+MANIFEST_TEXT = {
+ "C01": mt("seeded search over publish/consume/fault histories, schedules and queue configurations against the real nsqd; oracle: ledger conservation (every acknowledged publish is finished on every channel that existed, or still owed) plus bounded-liveness drain once faults stop. Sampling, not proof.", "DESIGN.md 3 C01", "deterministic simulation: ledger conservation + drain liveness"),
+ "C02": mt("seeded search with contention, late/wrong/duplicate answers and clock advances at deadlines; oracle: per (channel,message) history automaton (attempts sequence, exclusive holder via REQ/timeout arithmetic on the fake clock, FIN final, non-holder answers refused non-fatally).", "DESIGN.md 3 C02", "deterministic simulation: per-message ownership automaton"),
+ "C03": mt("seeded search over RDY/CLS/pause/unpause histories with competing consumers; oracle: per-connection model of RDY vs. certainly-unexpired outstanding messages, nothing after CLS/pause acknowledged, RDY range fatal.", "DESIGN.md 3 C03", "deterministic simulation: per-connection flow-control model"),
+ "C04": mt("seeded search over timeout/delay values and spellings with exact fake-clock arithmetic: never-early for timeouts (with TOUCH cap), REQ delays (clamped) and in-memory deferred publishes; out-of-range/overflowing spellings rejected or clamped.", "DESIGN.md 3 C04", "deterministic simulation: fake-clock timing oracle + spelling table"),
+ "C05": mt("seeded search over histories with graceful Exit (also inside bursts) and restart on the same data path, up to 3 cycles; oracle: registry and paused flags survive, every acknowledged unfinished message is delivered again with continuing attempts, finished ones never reappear.", "DESIGN.md 3 C05", "deterministic simulation: ledger across daemon lifetimes"),
+ "C07": mt("seeded search over adversarial bodies x publish path x queue path x negotiated TLS/snappy/deflate/buffer settings with short reads; oracle: byte equality by unique body, id format, id/timestamp stable across redeliveries and channels, timestamp within publish interval.", "DESIGN.md 3 C07", "deterministic simulation: byte-exact content/envelope oracle"),
+ "C08": mt("seeded search with delete/empty/pause/create issued concurrently (bursts, seeded yields) with publishes, deliveries, FIN/REQ/TOUCH and timeouts on durable and ephemeral objects; oracle: no daemon panic/hang, registry and data-dir state after acknowledged operations, discarded backlog never delivered, counters non-negative.", "DESIGN.md 3 C08", "deterministic simulation: crash/hang detection + post-operation state model"),
+ "C12": mt("seeded search with concurrent TCP/HTTP single and multi publishes while the fake clock stands still (sequence exhaustion is the normal case); oracle: ids unique per topic incarnation and increasing along real-time (acknowledged-before-sent) order and inside MPUB batches.", "DESIGN.md 3 C12", "deterministic simulation: uniqueness + real-time order of ids"),
+ "C13": mt("seeded search with /stats snapshots (JSON, text, filters) at quiescent points; oracle: conservation law per channel against the ledger, topic counters vs. acknowledged publishes, per-consumer counts, no negative count, renderings agree.", "DESIGN.md 3 C13", "deterministic simulation: conservation laws vs. ledger"),
+}
+
+NOT_APPLICABLE = {
+ "C06": "not yet built in this session (planned: fault enumeration over simos crash points)",
+ "C09": "not yet built in this session", "C10": "not yet built in this session", "C11": "not yet built in this session",
+ "C14": "not yet built in this session", "C15": "not yet built in this session", "C16": "not yet built in this session",
+ "C17": "not yet built in this session", "C18": "not yet built in this session", "C19": "not yet built in this session",
+ "C20": "not yet built in this session",
+}
